@@ -240,5 +240,8 @@ def project_full(objs, idtok, names_raw=True):
         st["vals"][h] = deep_vals(o) if k == "prop" else []
         st["id"][h] = idtok(o.id)
         if names_raw and k in ("sec", "prop"):
-            st["name"][h] = "empty" if o.name in (None, "") else ("#id" if o.name == o.id else str(o.name))
+            # a name that is an id string (unnamed objects are named by their id; a copy with a new
+            # id keeps the name) is shown by the token of that id
+            st["name"][h] = "empty" if o.name in (None, "") else (
+                "#" + idtok(o.name) if isinstance(o.name, str) and _CANON.match(o.name) else str(o.name))
     return st, objs
